@@ -7,4 +7,8 @@ open Gen
 
 theorem drop_frees_through_sync : dropUses = ["sync", "sync_no_panic"] := by decide
 
+/-- `Desync::drop` never releases the boxed value directly: every `Box::from_raw` sits inside the closure of a job it schedules on
+the object's own queue (which is what the model's `Body.free` is) -/
+theorem drop_frees_only_inside_its_job : dropFreesOutsideJob = 0 := by decide
+
 end Desync
